@@ -16,6 +16,8 @@ mod c10;
 #[cfg(kani)]
 mod c11;
 #[cfg(kani)]
+mod c05;
+#[cfg(kani)]
 mod c09;
 #[cfg(kani)]
 mod c16;
